@@ -52,7 +52,7 @@ static bool hex_layout(W &w, const std::vector<HFH> &l) {
 }
 
 // a proper combinatorial cube: 6 closed quads, 8 distinct vertices, 12 edges each used once in each direction
-static bool proper_cube(W &w, CH c, std::set<int> *verts = nullptr) {
+static bool proper_cube(W &w, CH c, std::set<int> *verts = nullptr, bool closed_surface_only = false) {
     auto &m = w.mesh;
     if (m.is_deleted(c)) return false;
     const auto &hfs = m.cell(c).halffaces();
@@ -74,6 +74,7 @@ static bool proper_cube(W &w, CH c, std::set<int> *verts = nullptr) {
     }
     if (vs.size() != 8 || hes.size() != 24) return false;
     for (int h : hes) if (!hes.count(h ^ 1)) return false;
+    if (closed_surface_only) { if (verts) *verts = vs; return true; }
     // every vertex in exactly three faces
     for (int v : vs) { int n = 0; for (auto hf : hfs) { auto fv = hf_verts(w, hf); if (std::find(fv.begin(), fv.end(), v) != fv.end()) ++n; } if (n != 3) return false; }
     if (verts) *verts = vs;
@@ -215,8 +216,11 @@ static void oracle_hex(W &w, StepOut &out, bool tainted_shape, bool all_layout) 
         auto fail = [&](const std::string &s) { out.fail("C16", "cell " + std::to_string(ci) + ": " + s); };
         std::set<int> cv;
         bool cube = proper_cube(w, c, &cv);
-        if (all_layout && cube) stat_event("layout_checked");
-        if (all_layout && cube && !hex_layout(w, hfs)) { fail("created from 8 vertices / accepted with topology check but not in the XF,XB,YF,YB,ZF,ZB layout"); return; }
+        // every cell created from 8 vertices / accepted with topology check: any closed surface of six quads on eight
+        // distinct vertices that got in must be in the documented layout (a non-cube cannot be, so it must not get in)
+        bool closed6 = cube || proper_cube(w, c, nullptr, true);
+        if (all_layout && closed6) stat_event("layout_checked");
+        if (all_layout && closed6 && !hex_layout(w, hfs)) { fail("created from 8 vertices / accepted with topology check but not in the XF,XB,YF,YB,ZF,ZB layout"); return; }
         if (hfs.size() == 6 && std::set<HFH>(hfs.begin(), hfs.end()).size() == 6) {
             // accessors agree with the stored positions
             HFH acc[6] = {m.xfront_halfface(c), m.xback_halfface(c), m.yfront_halfface(c), m.yback_halfface(c), m.zfront_halfface(c), m.zback_halfface(c)};
